@@ -357,7 +357,8 @@ def certificate_request(rng):
     lib = sub.TlsHandshakeCertificateRequest(
         certificate_types=list(types), certificate_authorities=[sub.TlsDistinguishedName(list(name)) for name in authorities],
         supported_signature_algorithms=algorithms_lib)
-    return Pair('certificate-request', lib, ref.certificate_request([int(t) for t in types], algorithms, authorities))
+    label = 'certificate-request%s%s' % ('+signature-algorithms' if algorithms is not None else '', '' if authorities else '+no-authorities')
+    return Pair(label, lib, ref.certificate_request([int(t) for t in types], algorithms, authorities))
 
 
 def certificate_status(rng):
